@@ -119,7 +119,7 @@ theorem create_lines_eq_read_lines (w : Tape.World) (v : Bool) : ∀ (srcs : Lis
     extraction are the same text: per file its name, its true size, its number of data blocks and
     the position of its leader block. -/
 theorem tape_reports_agree (w : Tape.World) (v : Bool) (archive : Str) (into : Option Str) (srcs : List Str)
-    (hr : Tape.AllReadable w srcs) (hn : C01.ValidNames srcs)
+    (hr : Tape.AllReadable w archive srcs) (hn : C01.ValidNames srcs)
     (hfit : Spec.K7.encSize (srcs.map (C03.specFile w)) < 21504)
     (hk : ∀ s ∈ srcs, samePath (pathJoin (Tape.targetDirOf archive into) (C01.catalogName s)) archive = false) :
     ∃ tape, (Tape.inject w v archive srcs).writes = [(archive, tape)]
@@ -128,7 +128,7 @@ theorem tape_reports_agree (w : Tape.World) (v : Bool) (archive : Str) (into : O
       ∧ (Tape.extract v archive into tape).out = Tape.reportLines w v 0 srcs := by
   refine ⟨Spec.K7.tape (srcs.map (C03.specFile w)), (C09.accepted w v archive srcs hr hfit).2.1, ?_, ?_⟩
   · have hfit' : Tape.totalLen (Tape.allRaw w srcs) < Gen.Tape.tapeSize := by rw [C09.needed_eq_encSize]; exact hfit
-    obtain ⟨t', e, _⟩ := Tape.injectLoop_ok w srcs Tape.blank { verbose := v } [] [] hr Tape.written_blank (by simpa using hfit')
+    obtain ⟨t', e, _⟩ := Tape.injectLoop_ok w archive srcs Tape.blank { verbose := v } [] [] hr Tape.written_blank (by simpa using hfit')
     simp [Tape.inject, e]
   · -- the created tape read back: its blocks are the frames of `createdFiles`
     have hblocks : Tape.readAll (Spec.K7.tape (srcs.map (C03.specFile w))) = (createdFiles w srcs).flatMap C08.TFile.frames := by
